@@ -661,6 +661,8 @@ def rule_borrowed_r4(ctx):
     ctx.rule("C05.BACKEND", "the resulting file tree is that of the reference model on every shipped backend: the in-memory open() follows io.open mode by mode "
                             "(REST+STOR of a missing file fails and creates nothing; shared with C18.MODE)")
     ctx.borrow(rule_mode, {"C18.MODE": "C05.BACKEND"})
+    from .c18 import rule_index
+    ctx.borrow(rule_index, {"C18.INDEX": "C05.BACKEND"}, only=lambda fn: "rename" in fn or "rmdir" in fn or "unlink" in fn)
 
 
 # the sequential reference model's refusal table: which session facts a verb needs (else 503) and what must hold for its path argument (else 550).
